@@ -116,6 +116,14 @@ pub fn fuzz_seeds(seed: u64) -> Vec<Vec<u8>> {
     out
 }
 
+fn big_oracle(_docs: &[&crate::model::Node], bytes: &[Vec<u8>]) -> Result<bool, String> {
+    let opts = OptSpec { prefix: "@".into(), text_id: "$text".into(), derive: "Serialize, Deserialize".into(), by_name: false };
+    for cfg in [ReaderCfg::default_slice(), ReaderCfg { kind: crate::sut::ReaderKind::Chunk(3), expand_empty: true, trim_text: true, check_end_names: false }] {
+        run_history(bytes, &cfg, &opts, None)?;
+    }
+    Ok(true)
+}
+
 impl Property for C07 {
     fn id(&self) -> &'static str {
         "C07"
@@ -171,6 +179,17 @@ impl Property for C07 {
             let runs = std::env::var("XSGV_FUZZ_RUNS").ok().and_then(|s| s.parse().ok()).unwrap_or(120_000u64);
             let c = crate::fuzzrun::Campaign { target: "fz_bytes", runs_per_worker: runs, workers: 16, seed, max_len: 4096, seeds: fuzz_seeds(seed) };
             crate::fuzzrun::campaign_for("C07", &c, st)?;
+        }
+        // families beyond the small scope (sizes around plausible limits: windows, inline capacities, two-digit suffixes)
+        {
+            let (n, fail) = super::smallscope::run_big_families(big_oracle);
+            st.evaluations += n;
+            st.nontrivial_enumerated += n;
+            st.add("big_families", n);
+            if let Some((label, e, docs)) = fail {
+                let first = e.lines().next().unwrap_or("").to_string();
+                return Err((Failure::new(format!("family `{}`: {}", label, first)).with_detail(json!({"documents": docs, "message": e})), json!({"big_family": label})));
+            }
         }
         // small-scope exhaustive histories: every pair parse(I1), extend(I2) over inputs of up to 3 top-level
         // fragments from a 9-fragment alphabet (820 inputs, 672 400 pairs), default reader and 1-byte chunks
@@ -247,6 +266,9 @@ impl Property for C07 {
         Ok(())
     }
     fn replay_custom(&self, payload: &Value) -> Result<(), Failure> {
+        if let Some(l) = payload["big_family"].as_str() {
+            return super::smallscope::replay_big_family(l, big_oracle).map_err(Failure::new);
+        }
         if payload["fuzz_target"].is_string() {
             let input = crate::runner::unhex(payload["input_hex"].as_str().unwrap_or(""));
             crate::crashguard::begin_case(&input, &[], &[], false);
